@@ -41,4 +41,5 @@ with open(out, 'w') as o:
 print(open(out).read().strip()[:1500])
 EOF
 git -C /repo worktree remove --force $WT
-rm -rf $L
+# keep the raw logs of a run that did not pass (outside /verif), for diagnosis
+if grep -q '^suite: ok' $S/suite.txt; then rm -rf $L; else rm -rf /tmp/seedsuite-logs-$1; mv $L /tmp/seedsuite-logs-$1; fi
